@@ -197,6 +197,10 @@ def confirm(c, outs):
             if got != want: return True, f'{prof}: {got}; as an interval it is {want} (the zero point was added to a compound/powered unit)'
     return False, 'real build agrees with the oracle'
 
+def validate(tier, seed, report):
+    from props import unitlib
+    return unitlib.validate_kernels(seed, 80 if tier == 'quick' else 400, ops=('add', 'mul', 'div'))
+
 def known_match(k, c): return True
 
 if __name__ == '__main__':
